@@ -160,6 +160,24 @@ pub fn exercise_loaded(rec: &mut Rec, mbi: &BootInformation, opts: &MbiOpts) {
         }
     }
 
+    // --- the same walk through nth() / count() (secondary iterator methods) ---
+    {
+        let n = items.len();
+        let mut ks = vec![0usize, 1, 2, n / 2, n.saturating_sub(1), n, n + 1];
+        ks.sort_unstable();
+        ks.dedup();
+        for k in ks {
+            let v = catch(|| mbi.tags().nth(k).map(|t| rec.ext(t)));
+            rec.t.push(format!("w.nth{k}"), match v { None => Val::Panic, Some(None) => Val::None, Some(Some(v)) => v });
+        }
+        let v = catch(|| {
+            let mut it = mbi.tags();
+            it.next();
+            it.count()
+        });
+        rec.t.push("w.count_after1", v.map_or(Val::Panic, |c| Val::U(c as u64)));
+    }
+
     // --- every item through the type its type word names ------------------
     if opts.typed_all {
         for (i, tag) in items.iter().enumerate() {
